@@ -280,7 +280,13 @@ def _operands(rng):
     if kind == "A":
         if not (-360 < v < 360):
             v = v % 360
-        return "A", Angle(v)
+        a = Angle(v)
+        if rng.random() < 0.15:
+            # an operand carrying a non-default comparison tolerance (it belongs to ==, not to the arithmetic)
+            a.set_tolerance(rng.choice([0.5, 1e-3, 0.0]))
+            if rng.random() < 0.5:
+                a = Angle(a)
+        return "A", a
     if kind == "I":
         return "I", int(v)
     return "F", float(v)
@@ -352,11 +358,22 @@ def gen_ops(seed, n, shard):
                 bk = "A" if isinstance(b, Angle) else ("I" if isinstance(b, int) else "F")
                 if abs(a()) > 30:
                     a = Angle(a() % 30)
+        if base == "sub" and bk == "A" and not refl and rng.random() < 0.3:
+            tol_b = b.get_tolerance()
+            b = Angle(max(-359.9, min(359.9, a() + rng.choice([0.25, -0.01, 3e-4, 1e-7]))))     # a close neighbour of a
+            b.set_tolerance(tol_b)
+        if base == "div" and bk == "A" and not refl and rng.random() < 0.25:
+            b = Angle(rng.choice([1, -1]) * 10 ** rng.uniform(-5.9, -2.6))                     # a small Angle divisor
+        if base in ("div", "mod"):
+            # "is the divisor zero" is itself decided with the operands' tolerance: keep the default there
+            for o in (a, b):
+                if isinstance(o, Angle):
+                    o.set_tolerance(1e-10)
         # mathematical operands
         x, y = (_val(b), a()) if refl else (a(), _val(b))
         if base == "mod" and not (y > 0 or y == 0):
             continue
-        if base in ("div", "mod") and y != 0 and abs(y) < 1e-3:
+        if base in ("div", "mod") and y != 0 and abs(y) < (1e-6 if (base == "div" and bk == "A" and not refl) else 1e-3):
             continue
         if base == "mod" and y != 0 and Fraction(y) != Fraction(fx(y)["s"] * sum(l * 10000 ** i for i, l in enumerate(fx(y)["d"])), 10 ** 16):
             continue            # modulus must be transported exactly
